@@ -121,7 +121,7 @@ def transform(src, pkg):
 def entries(pkgname, names):
     w = ['//go:build verif', '', 'package ' + pkgname, '']
     for n in names:
-        w.append('func VF_SELF_%s() {\n\tvfFreezeClock(1700000000) // the tests read the clock and expect it not to move by a second\n\tt := &vfT{}\n\tvfOpt("timers", 1) // real time passes in the tests: a pending timer fires when every goroutine is blocked\n\tvfRunT(t, %s)\n\tvfAssert(!t.failed, "repo-test-%s-fails-under-gosx: "+t.first)\n}\n' % (n, n, n))
+        w.append('func VF_SELF_%s() {\n\tvfFreezeClock(1700000000) // the tests read the clock and expect it not to move by a second\n\tt := &vfT{}\n\tvfOpt("timers", 64) // real time passes in the tests: a pending timer fires when every goroutine is blocked\n\tvfRunT(t, %s)\n\tvfAssert(!t.failed, "repo-test-%s-fails-under-gosx: "+t.first)\n}\n' % (n, n, n))
     return '\n'.join(w)
 
 
